@@ -311,14 +311,18 @@ theorem C11_gun_exclusive (acts : List Act) :
 (regenerated): the gun factory is called at exactly two places, neither inside a loop — once per `newInstance`
 (`Act.start`) and once for the warm-up gun (`Act.warmup`); the factory result reaches an instance at exactly two
 wiring points (the `newGun` dependency and the `gun` field of the new instance); and `Shoot` is called at exactly one
-place, on the instance's own `gun` field (`Act.move i`). A gun cache, a second `Shoot` site or a factory call in a loop
-changes these facts. -/
+place, on the instance's own `gun` field (`Act.move i`); every function that creates an instance runs it at exactly one
+place, outside any loop (one goroutine per instance: `Act.move i` is sequential per `i`). A gun cache, a second `Shoot`
+site, a factory call in a loop or a second `Run` of an instance changes these facts. -/
 theorem C11_engine_gun_facts :
     Pandora.Gen.Locks.gunFactoryCalls.length = 2 ∧
     (Pandora.Gen.Locks.gunFactoryCalls.all fun c => !c.2.2) = true ∧
     (Pandora.Gen.Locks.gunFactoryCalls.map (·.1)).Nodup ∧
     Pandora.Gen.Locks.gunWiring.length = 2 ∧
-    Pandora.Gen.Locks.shootCalls.length = 1 := by decide
+    Pandora.Gen.Locks.shootCalls.length = 1 ∧
+    Pandora.Gen.Locks.instanceRuns = Pandora.Gen.Locks.instanceCreations ∧
+    (Pandora.Gen.Locks.instanceRuns.map (·.1)).Nodup ∧
+    (Pandora.Gen.Locks.instanceRuns.all fun c => !c.2) = true := by decide
 
 /-- non-vacuity: a warm-up gun and three instances, two of them inside `Shoot` at the same time — on different guns -/
 example : (engRun engInit [.warmup, .start, .start, .move 0, .start, .move 2]).insts
